@@ -310,6 +310,11 @@ mod fuzzwrap {
 }
 
 pub fn replay(_p: &Params, v: &Value) -> Outcome {
+    if v["kind"] == "stack_probe" {
+        // a case of the stack-discipline stage (stack overflow or suspected hang): run that case again
+        let q = Params { prop: _p.prop.clone(), thorough: _p.thorough, seed: v["seed"].as_u64().unwrap_or(_p.seed), profile: _p.profile.clone(), workers: _p.workers };
+        return rtcm_verif_core::framing::stack_probe(&q, v["case"].as_str());
+    }
     let mut ctx = Ctx::new(0);
     let mut b = unhex(v["hex"].as_str().unwrap_or(""));
     if v["kind"] == "fuzz_input" {
